@@ -136,7 +136,7 @@ Definition occ_positional (c : ctxspec) (o : occ) : bool :=
       match o_form o, o_val o with
       | FPos, VS s =>
           a_positional a && takes_value a && plain s
-          && match a_kind a with KInt => intlike s | _ => true end
+          && castable a s
       | _, _ => false
       end
   end.
@@ -165,7 +165,7 @@ Proof.
   unfold plain in Pl. rewrite negb_true_iff in Pl.
   assert (Tv' : takes_value (r_spec r) = true) by (rewrite Sr; exact Tv).
   destruct (set_value_str r s Tv') as [r' [SV [Sp [Rw [Nnone Hl]]]]].
-  { intros K. rewrite Sr in K. rewrite K in Hint. exact Hint. }
+  { rewrite Sr. exact Hint. }
   { intros K. eapply (sn_list _ _ _ St); eauto. }
   unfold occ_input. rewrite Vo, SV. unfold text_of.
   split; [|split; [|split]].
